@@ -283,7 +283,9 @@ class Source:
             name = name.strip()
             if kind == "impl":
                 want = "impl" + norm(name)
-                cands = [x for x in scope if x.kind == "impl" and _impl_match(x.name, want)]
+                cands = [x for x in scope if x.kind == "impl" and x.name == want]
+                if not cands:
+                    cands = [x for x in scope if x.kind == "impl" and _impl_match(x.name, want)]
             else:
                 cands = [x for x in scope if x.kind == kind and x.name == name]
             if len(cands) != 1:
